@@ -139,7 +139,7 @@ Fixpoint pl_octal_loop (e : bool) (c : nat) (i : Z) (p : list Z) : Z * list Z :=
             end
   end.
 Definition pl_scan_octal (o : Z) (p : list Z) : Z * list Z :=
-  let '(i, p') := pl_octal_loop (useE o) 3 0 p in (Z.land i 255, p').
+  let '(i, p') := pl_octal_loop (useE o) 3 0 p in ((if useRE2 o then i else Z.land i 255), p').   (* RE2 keeps the value: \777 is U+01FF (/repo 533e628) *)
 
 Fixpoint pl_lookup (k : Z) (l : list (Z * Z)) : option Z :=
   match l with
